@@ -423,15 +423,25 @@ class Gen:
     def failing_statement(self):
         r = self.r
         k = r.random()
-        if k < 0.55:
+        if k < 0.45:
             return ("error", ("lit", r.choice(self.ERR_VALUES)))
-        if k < 0.7:
+        if k < 0.55:
             return V("undefined_name_xyz")
-        if k < 0.8:
+        if k < 0.63:
             return ("bin", "/", I(1), I(0))
-        if k < 0.9:
+        if k < 0.7:
             return CALL("length", I(5))
-        return ("call", I(3), [])
+        if k < 0.76:
+            return ("call", I(3), [])
+        # runtime errors that begin inside an indexing / slicing / iteration form itself (not inside a call)
+        return r.choice([("index", ("lit", ("list", (("int", 1), ("int", 2)))), NULL),
+                         ("index", S("abc"), S("x")),
+                         ("index", ("lit", ("list", (("int", 1),))), I(7)),
+                         ("idxassign", ("lit", ("list", (("int", 1),))), S("k"), I(0)),
+                         ("index", ("lit", ("map", ((("str", "k"), ("int", 1)),))), S("missing")),
+                         ("for", [self.fresh("z")], None, I(5), ("seq", [I(1)])),
+                         ("assign", "never_defined_variable", I(1)),
+                         ("not", I(1)), ("if", [(I(1), I(2))], None)])
 
     def err_block(self, depth, in_fn, in_loop):
         r = self.r
